@@ -43,6 +43,7 @@ import (
 	sharedConfig "lunar/shared-model/config"
 	"lunar/toolkit-core/logging"
 
+	"go.opentelemetry.io/otel/metric"
 	"go.opentelemetry.io/otel/metric/noop"
 )
 
@@ -64,7 +65,7 @@ type PRemedy struct {
 }
 
 type POp struct {
-	K    string            `json:"k"` // start | build | enq | set | firetick | firettl | resp
+	K    string            `json:"k"` // start | build | enq | set | firetick | firettl | resp | scrape
 	ID   int               `json:"id,omitempty"`
 	Rem  int               `json:"rem,omitempty"`
 	Hdrs map[string]string `json:"hdrs,omitempty"`
@@ -75,7 +76,7 @@ type POp struct {
 
 // PAct is one action of theories/C10/Plugin.v ([paction]).
 type PAct struct {
-	K    string            `json:"k"` // KLookup | KEnq | KPark | KTtl | KReturn | KTick | NoConfig
+	K    string            `json:"k"` // KLookup | KEnq | KPark | KTtl | KReturn | KTick | NoConfig | Scrape
 	Key  [3]int64          `json:"key"`
 	ID   int               `json:"id,omitempty"`
 	Rem  int               `json:"rem,omitempty"`
@@ -94,9 +95,18 @@ type PRes struct {
 	At       int64  `json:"at_ns"`
 }
 
+// PGauge is one value reported by the requests_in_queue gauge callback.
+type PGauge struct {
+	Remedy   string  `json:"remedy"`
+	Priority float64 `json:"priority"`
+	N        int64   `json:"n"`
+}
+
 // PEv is what the plugin monitor sees.
 type PEv struct {
-	K         string            `json:"k"` // arrive | ret | pass | noconf | resp
+	K         string            `json:"k"` // arrive | ret | pass | noconf | resp | scrape
+	Gauge     []PGauge          `json:"gauge,omitempty"`        // scrape: what the callback reported
+	Asked     []int             `json:"queues_read,omitempty"`  // scrape: queues (construction order) whose Counts() it read
 	ID        int               `json:"id,omitempty"`
 	Rem       int               `json:"rem,omitempty"`
 	Hdrs      map[string]string `json:"hdrs,omitempty"`
@@ -123,6 +133,7 @@ type PCase struct {
 	Events  []PEv    `json:"events"`
 	// not compared, for the reader of a replay file
 	Constructed int      `json:"queues_constructed"`
+	NoGauge     bool     `json:"no_gauge_callback,omitempty"` // the plugin registered no observable-gauge callback: scrape ops are skipped
 	Notes       []string `json:"notes,omitempty"`
 }
 
@@ -198,6 +209,43 @@ type prunner struct {
 	dead   bool
 
 	firstAct int
+
+	gaugeCbs []metric.Int64Callback // callbacks the plugin registered for its observable gauges
+	asked    []int                  // queues whose Counts() was read (reset per scrape)
+}
+
+// pmeter is a minimal metrics reader: it remembers the callbacks of the
+// observable int64 gauges registered on it (the plugin registers
+// observeRequestsInQueue) so that the harness can run them the way a metrics SDK
+// does on every scrape / export.  Everything else is a no-op.
+type pmeter struct {
+	noop.Meter
+	x *prunner
+}
+
+func (m *pmeter) Int64ObservableGauge(name string, opts ...metric.Int64ObservableGaugeOption,
+) (metric.Int64ObservableGauge, error) {
+	cfg := metric.NewInt64ObservableGaugeConfig(opts...)
+	m.x.gaugeCbs = append(m.x.gaugeCbs, cfg.Callbacks()...)
+	return noop.Int64ObservableGauge{}, nil
+}
+
+type pobserver struct {
+	noop.Int64Observer
+	mu  sync.Mutex
+	out []PGauge
+}
+
+func (o *pobserver) Observe(v int64, opts ...metric.ObserveOption) {
+	attrs := metric.NewObserveConfig(opts).Attributes()
+	r, _ := attrs.Value("remedy")
+	p, _ := attrs.Value("priority")
+	g := PGauge{N: v}
+	g.Remedy = r.AsString()
+	g.Priority = p.AsFloat64()
+	o.mu.Lock()
+	o.out = append(o.out, g)
+	o.mu.Unlock()
 }
 
 // recording proxy around the real queue
@@ -233,7 +281,12 @@ func (r *recQueue) Enqueue(req *queue.Request, ttl time.Duration, size int64) (b
 	return ok, err
 }
 
-func (r *recQueue) Counts() map[float64]int64 { return r.q.Counts() }
+func (r *recQueue) Counts() map[float64]int64 {
+	r.x.mu.Lock()
+	r.x.asked = append(r.x.asked, r.inst.idx)
+	r.x.mu.Unlock()
+	return r.q.Counts()
+}
 
 func newPRunner(k *PCase) *prunner {
 	x := &prunner{k: k, rs: map[int]*preq{}, byGid: map[int64]*preq{}}
@@ -247,7 +300,8 @@ func newPRunner(k *PCase) *prunner {
 		return x.factory(key, contextLogger)
 	}
 	x.plugin = remedies.NewStrategyBasedQueuePlugin(context.Background(), x.clk,
-		contextLogger, noop.NewMeterProvider().Meter("verif"), factory)
+		contextLogger, &pmeter{x: x}, factory)
+	k.NoGauge = len(x.gaugeCbs) == 0
 	return x
 }
 
@@ -718,6 +772,76 @@ func (x *prunner) do(op POp) bool {
 		}
 		x.k.Events = append(x.k.Events, PEv{K: "resp", ID: op.ID, Rem: op.Rem, At: now, Kind: kind})
 		x.settle()
+
+	case "scrape":
+		// one metrics collection: run the gauge callback(s) the plugin registered, on
+		// a goroutine of its own (as a metrics SDK does).  Not started while a
+		// request is held inside the queue factory: at HEAD it keeps queuesMutex
+		// there and the callback would (correctly) wait for it.
+		x.mu.Lock()
+		busy := x.constr != nil
+		for _, id := range x.order {
+			if w := x.rs[id]; w.started && !w.done && (w.atFact || w.inFact || w.blocked) {
+				busy = true
+			}
+		}
+		x.asked = nil
+		x.mu.Unlock()
+		if busy || len(x.gaugeCbs) == 0 {
+			return false
+		}
+		obs := &pobserver{}
+		fin := make(chan error, 1)
+		go func() {
+			var err error
+			for _, cb := range x.gaugeCbs {
+				if e := cb(context.Background(), obs); e != nil {
+					err = e
+				}
+			}
+			fin <- err
+		}()
+		var cbErr error
+		select {
+		case cbErr = <-fin:
+		case <-time.After(20 * time.Second):
+			buf := make([]byte, 1<<16)
+			n := runtime.Stack(buf, true)
+			panic(fmt.Sprintf("C10 harness (plugin): the requests_in_queue gauge callback did not return although no request "+
+				"was inside OnRequest's locked section\nops=%+v\n%s", x.k.Ops, buf[:n]))
+		}
+		x.settle()
+		obs.mu.Lock()
+		gauge := append([]PGauge(nil), obs.out...)
+		obs.mu.Unlock()
+		sort.Slice(gauge, func(i, j int) bool {
+			if gauge[i].Remedy != gauge[j].Remedy {
+				return gauge[i].Remedy < gauge[j].Remedy
+			}
+			if gauge[i].Priority != gauge[j].Priority {
+				return gauge[i].Priority < gauge[j].Priority
+			}
+			return gauge[i].N < gauge[j].N
+		})
+		var total int64
+		for _, g := range gauge {
+			total += g.N
+		}
+		x.mu.Lock()
+		asked := append([]int(nil), x.asked...)
+		x.mu.Unlock()
+		sort.Ints(asked)
+		ev := PEv{K: "scrape", At: now, Gauge: gauge, Asked: asked}
+		if cbErr != nil {
+			ev.Body = "error: " + cbErr.Error()
+		}
+		x.k.Events = append(x.k.Events, ev)
+		// lookups / returns a collection may have caused are reported first, the
+		// read itself last: its observable is what the callback reported
+		x.endOp(first, now)
+		x.emit(PAct{K: "Scrape", Now: now})
+		x.k.Counts[len(x.k.Counts)-1] = &total
+		return true
 
 	default:
 		panic("unknown plugin op " + op.K)
